@@ -582,11 +582,12 @@ func coreUnsubscribeRule(p *Prog, ls *Lockset, r *Report, rule string) {
 						continue
 					}
 					desc = "guarded by " + guardDesc([]Guard{g})
-					if lc, isCall := x.(*ssa.Call); isCall && builtinName(&lc.Call) == "len" && strings.HasSuffix(Path(lc.Call.Args[0]), "."+fname) {
+					if lc := lenOfField(x, "."+fname, 0); lc != nil {
 						sizeOK = true
-						// the size is read in the critical section of the delete
+						// the size is read in the critical section of the delete (both may sit in an extracted helper)
+						lf := lc.Parent()
 						var del ssa.Instruction
-						for _, a := range ls.accessesIn(devKey, fn) {
+						for _, a := range ls.accessesIn(devKey, lf) {
 							if dc, isD := a.Ins.(*ssa.Call); isD && builtinName(&dc.Call) == "delete" {
 								del = dc
 							}
